@@ -20,6 +20,7 @@ LEVEL = "proof"
 ALLOWED_AXIOMS = ["ClassicalDedekindReals.sig_not_dec", "ClassicalDedekindReals.sig_forall_dec",
                   "FunctionalExtensionality.functional_extensionality_dep", "Classical_Prop.classic",
                   "Axioms"]   # "Axioms" = the header line "Axioms:" of Print Assumptions, which ./check's regex also captures (reported to the lead)
+AXIOM_THEOREMS = ["C15_lcb_is_documented"]      # every other theorem of this property must be closed under the global context
 RULE = ("component: synthetic FunctionLoggers (0-90 rows, D 1-3, mesh points => exact distance ties, repeated points, S column absent / NaN / "
         "SDs, X_max_idx below the last row, scalar and per-coordinate len_scale, 1 or 2 reference points, n_train_min/max/buffer/radius "
         "variations) through the REAL get_grid_search_neighbors with the real udist output recorded as the distance oracle; compared with "
